@@ -219,6 +219,9 @@ structure FnIR where
   params : List String
   /-- default values of trailing parameters, as source text (`copy=True`, `seed=None`) -/
   defaults : List (String × String)
+  /-- where every global name the function uses comes from (`translate/cores.py` resolves imports to definitions):
+  `(name, "def <file>:<name>" | "class <file>:<name>" | "module <m>" | "builtin" | "from <file>:<name>")`, sorted by name -/
+  origins : List (String × String)
   body : List Stmt
   deriving DecidableEq, Repr
 
@@ -444,35 +447,36 @@ def zero : SEx := .lit 0 1
 def one : SEx := .lit 1 1
 
 def refTeachersRound : FnIR :=
-  { name := "teachers_round", recognised := true, params := ["x"], defaults := [],
+  { name := "teachers_round", recognised := true, params := ["x"], defaults := [], origins := [("int", "builtin"), ("np", "module numpy")],
     body := [ .ifRet (.or (.and (.lt zero (.var "x")) (.le half (.mod (.var "x") one)))
                           (.and (.lt (.var "x") zero) (.lt half (.mod (.var "x") one))))
                 (.expr (.ceilInt (.var "x"))) (.expr (.floorInt (.var "x"))) ] }
 
 def refThresholdAbsolute : FnIR :=
-  { name := "threshold_absolute", recognised := true, params := ["W", "thr", "copy"], defaults := [("copy", "True")],
+  { name := "threshold_absolute", recognised := true, params := ["W", "thr", "copy"], defaults := [("copy", "True")], origins := [("np", "module numpy")],
     body := [ .ifCopy "copy" "W", .fillDiag "W" zero, .setMask "W" (.lt (.var "W") (.var "thr")) zero, .ret (.mat "W") ] }
 
 def refBinarize : FnIR :=
-  { name := "binarize", recognised := true, params := ["W", "copy"], defaults := [("copy", "True")],
+  { name := "binarize", recognised := true, params := ["W", "copy"], defaults := [("copy", "True")], origins := [],
     body := [ .ifCopy "copy" "W", .setMask "W" (.ne (.var "W") zero) one, .ret (.mat "W") ] }
 
 def refNormalize : FnIR :=
-  { name := "normalize", recognised := true, params := ["W", "copy"], defaults := [("copy", "True")],
+  { name := "normalize", recognised := true, params := ["W", "copy"], defaults := [("copy", "True")], origins := [("np", "module numpy")],
     body := [ .ifCopy "copy" "W", .idivMax "W" (.abs (.var "W")), .ret (.mat "W") ] }
 
 def refInvert : FnIR :=
-  { name := "invert", recognised := true, params := ["W", "copy"], defaults := [("copy", "True")],
+  { name := "invert", recognised := true, params := ["W", "copy"], defaults := [("copy", "True")], origins := [("float", "builtin"), ("np", "module numpy")],
     body := [ .ifCopyFloat "copy" "W", .whereNZ "E" "W", .setAt "W" "E" (.div one (.at "W" "E")), .ret (.mat "W") ] }
 
 def refLogtransform : FnIR :=
   { name := "logtransform", recognised := true, params := ["W", "copy"], defaults := [("copy", "True")],
+    origins := [("ValueError", "builtin"), ("np", "module numpy")],
     body := [ .ifCopy "copy" "W",
               .raiseIfAny "W" (.or (.lt one (.var "W")) (.le (.var "W") zero)) "ValueError",
               .setAll "W" (.negLog (.var "W")), .ret (.mat "W") ] }
 
 def refCuberoot : FnIR :=
-  { name := "cuberoot", recognised := true, params := ["x"], defaults := [],
+  { name := "cuberoot", recognised := true, params := ["x"], defaults := [], origins := [("np", "module numpy")],
     body := [ .ret (.expr (.mul (.sign (.var "x")) (.pow (.abs (.var "x")) (.div one (.lit 3 1))))) ] }
 
 def nv : SEx := .var "n"
@@ -481,6 +485,8 @@ def neq (a b : String) : SEx := .ne (.var a) (.var b)
 
 def refPickFour : FnIR :=
   { name := "pick_four_unique_nodes_quickly", recognised := true, params := ["n", "seed"], defaults := [("seed", "None")],
+    origins := [("get_rng", "def bct/utils/miscellaneous_utilities.py:get_rng"),
+                ("pick_four_unique_nodes_quickly", "def bct/utils/miscellaneous_utilities.py:pick_four_unique_nodes_quickly")],
     body := [ .bindRng "rng" "seed",
               .draw "k" "rng" (.pow nv (.lit 4 1)),
               .bind "a" (.mod kv nv),
@@ -493,7 +499,93 @@ def refPickFour : FnIR :=
 def refFns : List FnIR :=
   [refTeachersRound, refThresholdAbsolute, refBinarize, refNormalize, refInvert, refLogtransform, refCuberoot, refPickFour]
 
+/-! ### primitives of the IR that are bct functions: a structural fingerprint of their definition
+
+`bindRng` gives `rng = get_rng(seed)` the meaning "the generator made from the seed argument; a generator passed as seed is
+returned unchanged" (that is what lets the recursive retry of `pick_four_unique_nodes_quickly` continue the same stream).
+`get_rng` itself is not interpreted: `translate/cores.py` resolves the name to its definition and emits the normalised source
+(`ast.unparse`, docstring and comments dropped) of that definition, which must be the text the meaning above was read from. -/
+
+structure Prim where
+  name : String
+  /-- `"def <file>:<name>"` of the definition the name resolves to -/
+  origin : String
+  /-- the parameter list as source text -/
+  params : String
+  /-- the statements of the body as normalised source text, one entry per line -/
+  src : List String
+  /-- where its own global names come from -/
+  origins : List (String × String)
+  deriving DecidableEq, Repr
+
+def refGetRng : Prim :=
+  { name := "get_rng", origin := "def bct/utils/miscellaneous_utilities.py:get_rng", params := "seed=None",
+    src := ["if seed is None or seed == np.random:",
+            "    return np.random.mtrand._rand",
+            "elif isinstance(seed, np.random.RandomState):",
+            "    return seed",
+            "try:",
+            "    rstate = np.random.RandomState(seed)",
+            "except ValueError:",
+            "    rstate = np.random.RandomState(random.Random(seed).randint(0, 2 ** 32 - 1))",
+            "return rstate"],
+    origins := [("ValueError", "builtin"), ("isinstance", "builtin"), ("np", "module numpy"), ("random", "module random")] }
+
+def primOk (p : Prim) : Bool := p == refGetRng
+
 /-- the decidable obligation generated per function: the extracted value is the expected program of that name -/
 def utilOk (ir : FnIR) : Bool := refFns.any fun r => r.name == ir.name && ir == r
+
+/-! ### `weight_conversion`: a dispatch on a string argument to other extracted utilities -/
+
+/-- `if <arg> == <lit>: return <callee>(<args>)` -/
+structure DArm where
+  lit : String
+  callee : String
+  args : List String
+  deriving DecidableEq, Repr
+
+structure DispatchIR where
+  name : String
+  recognised : Bool
+  params : List String
+  defaults : List (String × String)
+  origins : List (String × String)
+  /-- the parameter every test compares -/
+  arg : String
+  arms : List DArm
+  /-- the exception raised when no test holds -/
+  elseExc : String
+  deriving DecidableEq, Repr
+
+/-- the routine on `(W, wcm, copy)`: the first arm whose literal equals `wcm` calls its callee (looked up in the table of
+extracted utilities by name) on the named arguments -/
+def runDispatch (o : Oracles) (tbl : List FnIR) (ir : DispatchIR) (W : AMat SV n) (wcm : String) (copy : Bool) (draws : List Nat) :
+    Outcome n :=
+  match ir.params with
+  | [pW, pS, pC] =>
+    if ir.arg = pS ∧ pW ≠ pS ∧ pW ≠ pC ∧ pS ≠ pC then
+      match ir.arms.find? (fun a => a.lit == wcm) with
+      | some a =>
+        match tbl.find? (fun f => f.name == a.callee) with
+        | some f =>
+          -- arguments are passed positionally; only the matrix and the copy flag can be passed on
+          if a.args.all (fun x => x == pW || x == pC) then
+            runFn o f (a.args.map fun x => if x = pW then Obj.mat W else Obj.sc (.bool copy)) draws
+          else .stuck
+        | none => .stuck
+      | none => .raise ir.elseExc
+    else .stuck
+  | _ => .stuck
+
+def refWeightConversion : DispatchIR :=
+  { name := "weight_conversion", recognised := true, params := ["W", "wcm", "copy"], defaults := [("copy", "True")],
+    origins := [("NotImplementedError", "builtin"), ("binarize", "def bct/utils/other.py:binarize"),
+                ("invert", "def bct/utils/other.py:invert"), ("normalize", "def bct/utils/other.py:normalize")],
+    arg := "wcm",
+    arms := [⟨"binarize", "binarize", ["W", "copy"]⟩, ⟨"normalize", "normalize", ["W", "copy"]⟩, ⟨"lengths", "invert", ["W", "copy"]⟩],
+    elseExc := "NotImplementedError" }
+
+def dispatchOk (ir : DispatchIR) : Bool := ir == refWeightConversion
 
 end Bct.CoreIR.Util
